@@ -23,7 +23,12 @@ def _load():
                     USES[pid].append(n)
 
 
+CURRENT = [None]
+FILES = {}      # extractor name -> set of gen file names it wrote in this run
+
+
 def write_if_changed(name, text):
+    FILES.setdefault(CURRENT[0], set()).add(name)
     os.makedirs(GEN, exist_ok=True)
     p = os.path.join(GEN, name)
     old = open(p).read() if os.path.exists(p) else None
@@ -37,12 +42,14 @@ def regenerate_for(pid):
     _load()
     notes = []
     for ex in USES.get(pid, []):
+        CURRENT[0] = ex
         changed = EXTRACTORS[ex]()
         notes.append("%s%s" % (ex, " (changed)" if changed else ""))
     # the shared runner links every model, so the other tables must exist too; a failure of an
     # extractor that this property does not use is not this property's alarm (its own check reports it)
     for ex in sorted(EXTRACTORS):
         if ex not in USES.get(pid, []):
+            CURRENT[0] = ex
             try:
                 EXTRACTORS[ex]()
             except Exception as e:  # noqa
@@ -50,7 +57,39 @@ def regenerate_for(pid):
     return ", ".join(notes) if notes else "no regenerated table for this property"
 
 
+GOOD = os.path.join(core.CACHE, "gen-good")
+
+
+def snapshot_good():
+    """remember the regenerated tables with which the whole development last built"""
+    import shutil
+    os.makedirs(GOOD, exist_ok=True)
+    for f in os.listdir(GEN):
+        if f.endswith(".v"):
+            shutil.copyfile(os.path.join(GEN, f), os.path.join(GOOD, f))
+
+
+def restore_foreign(pid):
+    """A table regenerated for ANOTHER property no longer compiles (the source changed in that
+    property's area): that is that property's alarm, not this one's. Put the last good copy of
+    every table this property does not use back so that the shared runner builds again."""
+    import shutil
+    own = set()
+    for ex in USES.get(pid, []):
+        own |= FILES.get(ex, set())
+    restored = []
+    if not os.path.isdir(GOOD):
+        return restored
+    for f in os.listdir(GOOD):
+        if f not in own and os.path.exists(os.path.join(GEN, f)):
+            if open(os.path.join(GOOD, f)).read() != open(os.path.join(GEN, f)).read():
+                shutil.copyfile(os.path.join(GOOD, f), os.path.join(GEN, f))
+                restored.append(f)
+    return restored
+
+
 def regenerate_all():
     _load()
     for ex in sorted(EXTRACTORS):
+        CURRENT[0] = ex
         EXTRACTORS[ex]()
